@@ -45,8 +45,50 @@ def canary_lmtp(traces):
                 return c, 'LMTP data reply paired with the wrong recipient'
 
 
+def client_validation(extra_cov):
+    """the same executions, call by call, as behaviours of the design model SmtpClient itself (spec/Trace_SmtpClientD.tla)"""
+    from .. import smtpclientd
+    from ..common import MachineryError
+
+    def post(oc, traces, summaries):
+        proj = [p for p in (smtpclientd.project(t) for t in traces) if p]
+        if not proj:
+            return
+        full = {t['id']: t for t in traces}
+        can = None
+        for p in proj:          # binding canary: a reply object left empty by a call that flushes
+            ks = [i for i, c in enumerate(p['ev']) if c['flushing'] and c['objs'] and c['objs'][-1] != 0]
+            if ks:
+                can = copy.deepcopy(p)
+                can['id'] = max(x['id'] for x in proj) + 1
+                can['ev'][ks[-1]]['objs'][-1] = 0
+                break
+        r = smtpclientd.validate(proj + ([can] if can else []))
+        ver = r['verdicts']
+        can_ok = bool(can) and ver.pop(can['id'])[0] == 'OK'
+        drift, samples = {}, []
+        for tid, (v, d) in sorted(ver.items()):
+            cls = full[tid].get('cls', 'any')
+            if v == 'DRIFT':
+                drift[cls] = drift.get(cls, 0) + 1
+                if len(samples) < 3:
+                    samples.append({'trace_id': tid, 'cls': cls, 'cfg': full[tid].get('cfg'), 'detail': d})
+            elif v == 'MODEL_VIOL':
+                for c in d:
+                    oc.violation(c, cls + '-model', {'trace_id': tid, 'clauses': d, 'cfg': full[tid].get('cfg'),
+                                                     'by': 'SmtpClient flags it on a real execution (Trace_SmtpClientD)'}, full[tid])
+        if can_ok and not drift and not oc.violations:
+            raise MachineryError('binding canary accepted by Trace_SmtpClientD: a reply object left empty by a flushing call')
+        extra_cov['design_model_validation'] = {
+            'module': 'Trace_SmtpClientD (EXTENDS SmtpClient)', 'traces': len(proj), 'outside_the_model': len(traces) - len(proj),
+            'accepted': sum(1 for v in ver.values() if v[0] == 'OK'), 'drift': drift, 'tlc_states': r['states'], 'wall_s': r['wall_s'],
+            'canary_rejected': bool(can) and not can_ok, 'drift_samples': samples}
+    return post
+
+
 def run(tier):
     wd = workdir('C10')
+    extra_cov = {}
     q = tier == 'quick'
     mc = []
     for lm in ('TRUE', 'FALSE'):
@@ -65,7 +107,7 @@ def run(tier):
                      'replies since the last end-of-data / RSET / accepted LHLO (DESIGN.md section 7)',
                      'the scripted peer never sends a reply it does not owe, so an unowed read shows as a starved recv()'],
         trusted=['TLC 1.8', 'CommunityModules Json/IOUtils', 'harness/drivers/c10.py (scripted peer, token extraction)'],
-        wd=wd)
+        wd=wd, extra_cov=extra_cov, post=client_validation(extra_cov))
 
 
 def replay(path):
